@@ -113,6 +113,7 @@ def _child(sc, wfd):
         res['waited'] = world.clock.waited
         res['vtime'] = world.clock.now - 1_700_000_000.0
         res['nconn'] = world.nconn
+        res['runaway'] = world.runaway
         res['events'] = world.events
         with open(out_path, 'r', encoding='utf-8', errors='replace', newline='') as f:
             res['stdout'] = f.read()
